@@ -77,6 +77,9 @@ class _Endpoint:
         self.skipped_sends = 0
         self.ack_mode = "now"
         self._unacked: list = []       # [(flow_controlled_length, stream_id)]
+        self._rxbuf = bytearray()
+        self._preface_done = False
+        self.empty_data_frames = 0
 
     def now(self):
         return self.world.loop.time()
@@ -97,6 +100,9 @@ class _Endpoint:
             # h2 refuses all input once it has sent GOAWAY; frames still in flight are not the proxy's fault
             self.note("rx_after_goaway", len(data))
             return []
+        data = self._drop_empty_data_frames(data)
+        if not data:
+            return []
         try:
             evs = self.conn.receive_data(data)
         except h2.exceptions.ProtocolError as e:
@@ -105,6 +111,36 @@ class _Endpoint:
             self.flush()  # h2 has queued a GOAWAY
             return []
         return evs
+
+    def _drop_empty_data_frames(self, data: bytes) -> bytes:
+        """RFC 9113 6.9: flow control counts DATA payload only, so a zero-length DATA frame is legal whatever the window.
+        hyper-h2 nevertheless raises 'Flow control window shrunk below 0' when one arrives while the window is negative
+        (after a SETTINGS_INITIAL_WINDOW_SIZE reduction).  Zero-length DATA frames without END_STREAM carry nothing, so
+        the peer drops them before h2 sees them (counted in `empty_data_frames`); everything else passes unchanged."""
+        self._rxbuf += data
+        out = bytearray()
+        buf = self._rxbuf
+        if not self._preface_done:
+            if self.conn.config.client_side:
+                self._preface_done = True
+            else:
+                if len(buf) < 24:
+                    return b""
+                out += buf[:24]
+                del buf[:24]
+                self._preface_done = True
+        while len(buf) >= 9:
+            ln = int.from_bytes(buf[0:3], "big")
+            if len(buf) < 9 + ln:
+                break
+            ftype, flags = buf[3], buf[4]
+            if ftype == 0 and ln == 0 and not (flags & 0x1):
+                self.empty_data_frames += 1
+                self.note("empty_data_dropped", int.from_bytes(buf[5:9], "big") & 0x7FFFFFFF)
+            else:
+                out += buf[:9 + ln]
+            del buf[:9 + ln]
+        return bytes(out)
 
     def ack_data(self, n: int, sid: int):
         if n <= 0:
@@ -475,7 +511,7 @@ class H2Origin(_Endpoint):
                 self.flush()
         chunks = [B(c) for c in r.get("chunks", [])]
         trailers = r.get("trailers")
-        head = hdrs(r["headers"])
+        head = hdrs(r["headers"]) or [(b":status", b"200")]   # (a shrunk script may have lost all its fields)
         end_on_headers = not chunks and not trailers and rst is None and not r.get("end_with_empty_data")
         if not self.send_guard(self.conn.send_headers, sid, head, end_stream=end_on_headers):
             return
